@@ -486,4 +486,252 @@ theorem runX_prepare_failure_atomic (env : Env) (SX : StoreX) (t : Txn) :
       | panic S' => rw [hc] at hk; exact absurd hk id
       | hang => rw [hc] at hk; exact absurd hk id
 
+/-! ### lock files that are never needed do not matter -/
+
+theorem lockAndApply_frame (cx : Ctx) (base : Store) (K B : List Name) (e : Edit) (S1 : Store) (e1 : Edit)
+    (h : lockAndApply cx { base with locks := K ++ B } e = .ok (S1, e1)) :
+    ∃ K1, S1 = { base with locks := K1 ++ B } ∧
+      lockAndApply cx { base with locks := K } e = .ok ({ base with locks := K1 }, e1) := by
+  rw [lockAndApply_general] at h
+  rw [lockAndApply_general]
+  have hre : ∀ (X : List Name) n, readExisting ({ base with locks := X } : Store) cx.buffer n = readExisting base cx.buffer n :=
+    fun _ _ => rfl
+  rw [hre] at h
+  rw [hre]
+  dsimp only at h ⊢
+  by_cases h1 : (!cx.hasGlobalLock && decide (e.name ∈ K ++ B)) = true
+  · rw [if_pos h1] at h; cases h
+  · rw [if_neg h1] at h
+    have h1' : ¬ (!cx.hasGlobalLock && decide (e.name ∈ K)) = true := by
+      intro hc
+      apply h1
+      simp only [Bool.and_eq_true, Bool.not_eq_true', decide_eq_true_eq] at hc ⊢
+      exact ⟨hc.1, List.mem_append_left _ hc.2⟩
+    rw [if_neg h1']
+    cases hck : checkC (readExisting base cx.buffer e.name) e with
+    | some ce => rw [hck] at h; cases h
+    | none =>
+      rw [hck] at h
+      dsimp only at h ⊢
+      by_cases h2 : (cx.hasGlobalLock && wantLock cx (readExisting base cx.buffer e.name) e && decide (e.name ∈ K ++ B)) = true
+      · rw [if_pos h2] at h; cases h
+      · rw [if_neg h2] at h
+        have h2' : ¬ (cx.hasGlobalLock && wantLock cx (readExisting base cx.buffer e.name) e && decide (e.name ∈ K)) = true := by
+          intro hc
+          apply h2
+          simp only [Bool.and_eq_true, decide_eq_true_eq] at hc ⊢
+          exact ⟨hc.1, List.mem_append_left _ hc.2⟩
+        rw [if_neg h2']
+        injection h with h
+        injection h with hS1 he1
+        refine ⟨if wantLock cx (readExisting base cx.buffer e.name) e = true then e.name :: K else K, ?_, ?_⟩
+        · rw [← hS1]
+          cases wantLock cx (readExisting base cx.buffer e.name) e <;> simp
+        · rw [he1]
+
+theorem prepLoop_frame (cx : Ctx) (unlockPacked : Store → Store) (base : Store) (B : List Name) :
+    ∀ todo cid (K : List Name) (es es' : List Edit) (S1 : Store),
+      prepLoop .fixed cx unlockPacked todo cid { base with locks := K ++ B } es = .ok es' S1 →
+      ∃ K', S1 = { base with locks := K' ++ B } ∧
+        prepLoop .fixed cx unlockPacked todo cid { base with locks := K } es = .ok es' { base with locks := K' } := by
+  intro todo
+  induction todo with
+  | zero =>
+    intro cid K es es' S1 h
+    simp only [prepLoop] at h ⊢
+    injection h with h1 h2
+    exact ⟨K, h2.symm, by rw [h1]⟩
+  | succ todo ih =>
+    intro cid K es es' S1 h
+    simp only [prepLoop] at h ⊢
+    cases hget : es[cid]? with
+    | none =>
+      rw [hget] at h
+      simp only [] at h ⊢
+      injection h with h1 h2
+      exact ⟨K, h2.symm, by rw [h1]⟩
+    | some e =>
+      rw [hget] at h
+      simp only [] at h ⊢
+      cases hla : lockAndApply cx { base with locks := K ++ B } e with
+      | error err =>
+        rw [hla] at h
+        cases err with
+        | lock =>
+          simp only [] at h
+          cases hw : walkBy .fixed es es.length e.parent e.name with
+          | none => rw [hw] at h; simp at h
+          | some w => rw [hw] at h; cases w <;> simp at h
+        | check ce =>
+          simp only [] at h
+          cases hc : errOfCheck e.name ce <;> (rw [hc] at h; simp at h)
+      | ok r =>
+        obtain ⟨S2, e1⟩ := r
+        rw [hla] at h
+        simp only [] at h
+        obtain ⟨K1, hS2, hbase⟩ := lockAndApply_frame cx base K B e S2 e1 hla
+        rw [hbase]
+        simp only []
+        subst hS2
+        cases hprev : prevOid e1.update.change with
+        | none =>
+          rw [hprev] at h
+          simp only [] at h ⊢
+          exact ih _ _ _ _ _ h
+        | some oid =>
+          rw [hprev] at h
+          cases hpar : e1.parent with
+          | none =>
+            rw [hpar] at h
+            simp only [] at h ⊢
+            exact ih _ _ _ _ _ h
+          | some p =>
+            rw [hpar] at h
+            simp only [] at h ⊢
+            cases hsl : setLeaf oid (es.set cid e1).length (some p) (es.set cid e1) with
+            | none => rw [hsl] at h; simp at h
+            | some r2 =>
+              rw [hsl] at h
+              cases r2 with
+              | none => simp at h
+              | some es2 =>
+                simp only [] at h ⊢
+                exact ih _ _ _ _ _ h
+
+theorem filter_notin_append (K B : List Name) (h : ∀ n ∈ K, n ∉ B) :
+    (K ++ B).filter (fun n => !(B.contains n)) = K := by
+  rw [List.filter_append]
+  have ha : K.filter (fun n => !(B.contains n)) = K := by
+    apply List.filter_eq_self.mpr
+    intro a ha
+    simp only [Bool.not_eq_true', List.contains_eq_mem, decide_eq_false_iff_not]
+    exact h a ha
+  have hb : B.filter (fun n => !(B.contains n)) = [] := by
+    apply List.filter_eq_nil_iff.mpr
+    intro a ha
+    simp [ha]
+  rw [ha, hb, List.append_nil]
+
+/-- the prepare loop of the extended run (with the names that cannot be locked standing in as
+held locks) is the prepare loop of the core run -/
+theorem prepLoop_unblock (cx : Ctx) (unlockPacked : Store → Store) (base : Store) (B : List Name)
+    (hbl : base.locks = []) (es es' : List Edit) (S1 : Store)
+    (hw : WfParents es) (hlk : ∀ e ∈ es, e.lock = false) (hn : (es.map Edit.name).Nodup)
+    (h : prepLoop .fixed cx unlockPacked es.length 0 { base with locks := base.locks ++ B } es = .ok es' S1) :
+    prepLoop .fixed cx unlockPacked es.length 0 base es = .ok es' (unblock B S1) := by
+  have hb0 : ({ base with locks := base.locks ++ B } : Store) = { base with locks := [] ++ B } := by rw [hbl]
+  rw [hb0] at h
+  obtain ⟨K', hS1, hbase⟩ := prepLoop_frame cx unlockPacked base B es.length 0 [] es es' S1 h
+  have hleak := prepLoop_leak cx unlockPacked base B es [] (by simpa using hw) hlk (by simpa using hn)
+    (by intro e he; cases he)
+  simp only [List.nil_append, List.length_nil, lockedRev] at hleak
+  have h' : prepLoop .fixed cx unlockPacked es.length 0 { base with locks := B } es = .ok es' S1 := by
+    simpa using h
+  simp only [List.filter_nil, List.map_nil, List.reverse_nil, List.nil_append] at hleak
+  rw [h'] at hleak
+  obtain ⟨hS1', _, hown⟩ := hleak
+  have hK : K' = ((es'.filter (·.lock)).map Edit.name).reverse := by
+    have : K' ++ B = ((es'.filter (·.lock)).map Edit.name).reverse ++ B := by
+      have e1 : S1.locks = K' ++ B := by rw [hS1]
+      have e2 : S1.locks = ((es'.filter (·.lock)).map Edit.name).reverse ++ B := by rw [hS1']
+      rw [← e1, e2]
+    exact List.append_cancel_right this
+  have hnotin : ∀ n ∈ K', n ∉ B := by
+    intro n hnK
+    rw [hK] at hnK
+    simp only [List.mem_reverse, List.mem_map, List.mem_filter] at hnK
+    obtain ⟨e, ⟨he, hl⟩, hen⟩ := hnK
+    rw [← hen]; exact hown e he hl
+  have hbase0 : ({ base with locks := ([] : List Name) } : Store) = base := by
+    cases base; simp at hbl ⊢; exact hbl
+  rw [hbase0] at hbase
+  rw [hbase, hS1]
+  congr 1
+  unfold unblock
+  simp only []
+  rw [filter_notin_append K' B hnotin]
+
+/-- the successful extended run is a successful core run — also when some names of the
+transaction lie below a loose reference file (they then needed no lock file) -/
+theorem runX_ok_transfer_any (env : Env) (SX SX' : StoreX) (t : Txn) (hL : NoLocks SX.base)
+    (h : runX env SX t = .ok SX') : run env SX.base t = .ok () SX'.base := by
+  obtain ⟨hl0, hpl0⟩ := hL
+  unfold runX at h
+  cases hp : preProcess (fun n => lookup SX.base.loose n) t.edits with
+  | outOfFuel => rw [hp] at h; simp at h
+  | cycle => rw [hp] at h; simp at h
+  | duplicate => rw [hp] at h; simp at h
+  | ok es =>
+    rw [hp] at h
+    simp only [] at h
+    have hw := preProcess_ok_wf _ _ _ hp
+    have hlk : ∀ e ∈ es, e.lock = false := preProcess_ok_lock _ _ es hp
+    have hn : (es.map Edit.name).Nodup := by
+      unfold preProcess at hp
+      split at hp
+      · cases hp
+      · cases hp
+      · split at hp
+        · cases hp
+        · rename_i hdup
+          injection hp with hp
+          subst hp
+          exact hasDup_false_nodup _ (by simpa using hdup)
+    -- prepare on the store with the stand-in locks
+    have hp' : preProcess (fun n => lookup ({ SX.base with locks := SX.base.locks ++ blockedNames SX.base es } : Store).loose n) t.edits = .ok es := hp
+    have heqP := prepareWith_ok_eq env { SX.base with locks := SX.base.locks ++ blockedNames SX.base es } t es hp' hpl0
+    have heqB := prepareWith_ok_eq env SX.base t es hp hpl0
+    have hwtx : withTxB t.mode ({ SX.base with locks := SX.base.locks ++ blockedNames SX.base es } : Store) es = withTxB t.mode SX.base es := rfl
+    cases hprep : prepareWith .fixed env { SX.base with locks := SX.base.locks ++ blockedNames SX.base es } t with
+    | hang => rw [hprep] at h; simp at h
+    | err e S1 => rw [hprep] at h; simp at h
+    | panic S1 => rw [hprep] at h; simp at h
+    | ok p S1 =>
+      rw [hprep] at h
+      simp only [] at h
+      have hcommit := (commitX_ok { SX with base := unblock (blockedNames SX.base es) S1 } SX' p h).1
+      -- the same prepare on the base store
+      have hbaseprep : prepareWith .fixed env SX.base t = .ok p (unblock (blockedNames SX.base es) S1) := by
+        rw [heqP, hwtx] at hprep
+        rw [heqB]
+        by_cases hwith : withTxB t.mode SX.base es = true
+        · simp only [hwith, if_true] at hprep ⊢
+          by_cases hk : objectsKnown env t.mode es = true
+          · simp only [hk, if_true] at hprep ⊢
+            cases hpl : prepLoop .fixed
+                { buffer := SX.base.packed, hasGlobalLock := true, directToPacked := decide (t.mode = .updatesRemoveLoose) }
+                (fun S' => { S' with packedLock := false }) es.length 0
+                { ({ SX.base with locks := SX.base.locks ++ blockedNames SX.base es } : Store) with packedLock := true } es with
+            | ok es' S2 =>
+              rw [hpl] at hprep
+              simp only [liftPrep] at hprep
+              injection hprep with h1 h2
+              have := prepLoop_unblock _ _ { SX.base with packedLock := true } (blockedNames SX.base es) hl0 es es' S2 hw hlk hn hpl
+              rw [this]
+              simp only [liftPrep]
+              rw [← h1, ← h2]
+            | err e S2 => rw [hpl] at hprep; simp [liftPrep] at hprep
+            | panic S2 => rw [hpl] at hprep; simp [liftPrep] at hprep
+            | hang => rw [hpl] at hprep; simp [liftPrep] at hprep
+          · simp [hk] at hprep
+        · have hwith' : withTxB t.mode SX.base es = false := by simpa using hwith
+          simp only [hwith', Bool.false_eq_true, if_false] at hprep ⊢
+          cases hpl : prepLoop .fixed
+              { buffer := none, hasGlobalLock := false, directToPacked := decide (t.mode = .updatesRemoveLoose) }
+              id es.length 0 { SX.base with locks := SX.base.locks ++ blockedNames SX.base es } es with
+          | ok es' S2 =>
+            rw [hpl] at hprep
+            simp only [liftPrep] at hprep
+            injection hprep with h1 h2
+            have := prepLoop_unblock _ _ SX.base (blockedNames SX.base es) hl0 es es' S2 hw hlk hn hpl
+            rw [this]
+            simp only [liftPrep]
+            rw [← h1, ← h2]
+          | err e S2 => rw [hpl] at hprep; simp [liftPrep] at hprep
+          | panic S2 => rw [hpl] at hprep; simp [liftPrep] at hprep
+          | hang => rw [hpl] at hprep; simp [liftPrep] at hprep
+      unfold run runWith
+      rw [hbaseprep]
+      exact hcommit
+
 end GixModel.C16Fs
